@@ -289,7 +289,8 @@ Example C11_generated_example :
     (DriverInst.st_init (Driver.mkcfg 8 2 1 (-1) true true false)) = [(5, tt)].
 Proof. split; [split; reflexivity | vm_compute; reflexivity]. Qed.
 
-(* ============================================================================================================   BEGIN family laststep: the number of steps main() derives from a run length (Proofs/LastStepP.v, Gen/Gen_LastStep.v)
+(* ===================================================================================================================
+   BEGIN family laststep: the number of steps main() derives from a run length (Proofs/LastStepP.v, Gen/Gen_LastStep.v)
    =================================================================================================================== *)
 (** * The step counts of the legs add up
 
@@ -432,7 +433,6 @@ Proof. vm_compute. repeat split. Qed.
 (* ===================================================================================================================
    END family laststep
    =================================================================================================================== *)
-=======
 (** ** (strengthening F2-J) the stale initial normalisation at a restart is harmless BECAUSE the constructor leaves the
     cached bunch charge equal to the bunch's share.  [HDF5File::readPhaseSpace] constructs a PhaseSpace without start
     data (the constructor's own Gaussian, whatever the grid cuts off it) and reads the record over its grid; main()'s
